@@ -299,7 +299,7 @@ func ruleNoStreamAfterGoAway(p *Prog, r *Out) {
 	if fd == nil {
 		r.undecided("CanOpenStream", "?", "no longer resolves")
 	} else {
-		goaway, ids, conc := false, false, false
+		goaway, ids, conc, wide := false, false, false, false
 		for _, s := range fd.Body.List {
 			switch x := s.(type) {
 			case *ast.IfStmt:
@@ -320,10 +320,17 @@ func ruleNoStreamAfterGoAway(p *Prog, r *Out) {
 				if len(x.Results) == 1 {
 					if b, ok := x.Results[0].(*ast.BinaryExpr); ok && b.Op == token.LSS && strings.Contains(p.text(b.X), "c.openStreams") && strings.Contains(p.text(b.Y), "c.maxStreams") {
 						conc = true
+						// both sides widened before they meet: the limit is any uint32, and as int32 a big one is negative
+						lx, okx := ast.Unparen(b.X).(*ast.CallExpr)
+						ly, oky := ast.Unparen(b.Y).(*ast.CallExpr)
+						if okx && oky && p.isConversion(lx) && p.isConversion(ly) && p.text(lx.Fun) == "int64" && (p.text(ly.Fun) == "int64" || p.text(ly.Fun) == "uint64") {
+							wide = true
+						}
 					}
 				}
 			}
 		}
+		r.check(wide, "the stream limit is compared in 64 bits", p.pos(fd.Pos()), "int64(openStreams) < int64(maxStreams)", "CanOpenStream compares the open-stream count with SETTINGS_MAX_CONCURRENT_STREAMS in 32 bits: a limit of 2^31 or more, which a server may well advertise, comes out negative and every request is refused with ErrNotAvailableStreams")
 		r.check(goaway, "CanOpenStream refuses after GOAWAY", p.pos(fd.Pos()), "goAway != 0 -> false", "CanOpenStream no longer refuses once the GOAWAY flag is set")
 		r.check(ids, "CanOpenStream refuses exhausted ids", p.pos(fd.Pos()), "nextID > 2^31-1 -> false", "CanOpenStream no longer refuses when the stream ids are used up")
 		r.check(conc, "CanOpenStream honours MAX_CONCURRENT_STREAMS", p.pos(fd.Pos()), "openStreams < maxStreams", "CanOpenStream no longer compares the open-stream count with the peer's SETTINGS_MAX_CONCURRENT_STREAMS strictly (<)")
